@@ -131,6 +131,15 @@ pub struct Runtime {
     pub preemptions: u32,
     pub timeouts: u32,
     pub choice_points: u32,
+    /// process-unique number of this execution: handles created in one execution and used in a
+    /// later one (possible only through process-wide state in the code under test) are detected
+    pub epoch: u64,
+}
+
+static NEXT_EPOCH: std::sync::atomic::AtomicU64 = std::sync::atomic::AtomicU64::new(1);
+
+pub fn epoch() -> u64 {
+    RT.with(|c| c.borrow().as_ref().map(|rt| rt.epoch).unwrap_or(0))
 }
 
 thread_local! {
@@ -568,6 +577,7 @@ pub fn execute(chooser: &mut dyn Chooser, opts: RunOpts, body: Box<dyn FnOnce()>
         preemptions: 0,
         timeouts: 0,
         choice_points: 0,
+        epoch: NEXT_EPOCH.fetch_add(1, std::sync::atomic::Ordering::Relaxed),
     });
     new_task(&mut rt, "main".to_string(), Role::Main, body);
     rt.next = Some(0);
